@@ -68,12 +68,13 @@ def _renumber_drop_poster(sched, i):
 
 def shrink_candidates(ops):
     """smaller ops terms, most aggressive first (check.py tries the first 64 per round)"""
-    progs, oracle, sched = ops["mkOps"]
+    progs, oracle, sched = ops["mkOps"][:3]
+    tp = ops["mkOps"][3] if len(ops["mkOps"]) > 3 else 99
     n = len(sched)
     cands = []
 
     def add(p, o, s):
-        c = {"mkOps": [p, o, s]}
+        c = {"mkOps": [p, o, s, tp]}
         if c != ops and c not in cands:
             cands.append(c)
 
